@@ -26,6 +26,7 @@ CONSTANTS P,            \* number of plugins on the statement
           K,            \* diagnostics each plugin returns
           Synchronised,
           Nested,       \* the annotated statement has a body in which a `falco-ignore-start` range is opened
+          Fails,        \* plugins whose process fails (not found / exit status / garbage): they return no diagnostics
           WaitFirst     \* customLint waits for the plugins BEFORE the statement itself is linted (the code does)
 
 Plug == 1..P
@@ -37,7 +38,8 @@ VARIABLES ignoring, \* the linter's ignore state: an unrestricted ignore range i
           has       \* ... and whether it holds one
 vars == <<ignoring, mainpc, errors, next, snap, has>>
 
-Init == ignoring = FALSE /\ mainpc = "plugins" /\ errors = <<>> /\ next = [p \in Plug |-> 1] /\ snap = [p \in Plug |-> <<>>] /\ has = [p \in Plug |-> FALSE]
+\* a failing plugin has nothing to report; it must not keep its siblings from reporting
+Init == ignoring = FALSE /\ mainpc = "plugins" /\ errors = <<>> /\ next = [p \in Plug |-> IF p \in Fails THEN K + 1 ELSE 1] /\ snap = [p \in Plug |-> <<>>] /\ has = [p \in Plug |-> FALSE]
 
 ReportAtomic(p) ==
   /\ Synchronised /\ next[p] <= K
@@ -66,14 +68,14 @@ Next == (\E p \in Plug : ReportAtomic(p) \/ ReadHeader(p) \/ WriteBack(p)) \/ Li
 Spec == Init /\ [][Next]_vars /\ WF_vars(Next)
 
 Finished == PluginsDone /\ mainpc = "done"
-Expected == {<<p, i>> : p \in Plug, i \in 1..K}
+Expected == {<<p, i>> : p \in Plug \ Fails, i \in 1..K}
 AllReported == Finished => (/\ {errors[i] : i \in 1..Len(errors)} = Expected
-                            /\ Len(errors) = P * K)
+                            /\ Len(errors) = Cardinality(Plug \ Fails) * K)
 NoneInvented == \A i \in 1..Len(errors) : errors[i] \in Expected
 Terminates == <>Finished
 
 \* one workload per (P, K): what the replayer must find in Linter.Errors (each model diagnostic <<p, i>> is
 \* concretised as a batch of real diagnostics "p<p>-<i>-<j>")
-EmitInv == Finished => PrintT(<<"BEHAVIOUR", ToJson([p |-> P, k |-> K, nested |-> Nested, expected |-> Expected,
-                                                     count |-> P * K])>>)
+EmitInv == Finished => PrintT(<<"BEHAVIOUR", ToJson([p |-> P, k |-> K, nested |-> Nested, fails |-> Fails,
+                                                     expected |-> Expected, count |-> Cardinality(Expected)])>>)
 =============================================================================
